@@ -4,10 +4,10 @@ C01 line-protocol driver. One shape per stdin line → one result line. Runs the
 
   shape <uni|batch> zk D dg nrc friRounds finalPoly queries cpow qpow logMaxH k
         (width nPub preW hasNext preNext nChunks nLookups degreeBits) × k
-    → res pred=<accept|build-err|pack-err|run-reject> trans=<o3,s4,…> elems=<com=16,pub=3,…>
+    → res pred=<accept|build-err|run-reject> trans=<o3,s4,…> elems=<com=16,pub=3,…>
 
 `pred`: what the model says happens to the honest proof in the circuit (`build-err`: the circuit
-side of the script is `.error`; `pack-err`: a commitment round is shorter than the tallest matrix;
+side of the script is `.error`;
 `run-reject`: the circuit's script differs from the native one; `accept` otherwise).
 `trans`: transcript structure of the *native* script (`o` observed / `s` sampled base elements, `b`
 sampled bits). `elems`: scalars per element class of the proof.
@@ -38,16 +38,16 @@ def run (line : String) : String :=
       | some insts =>
         let s : Shape := { zk := zk != 0, D := d, nrc := nrc, insts := insts, friRounds := fr,
                            finalPolyLen := fp, queries := q, commitPowBits := cp, queryPowBits := qp }
-        let go (native : Script) (circ : Except String Script) (rounds : List Round) (heights : Bool) : String :=
+        let go (native : Script) (circ : Except String Script) (rounds : List Round) : String :=
           let pred := match circ with
             | .error _ => "build-err"
-            | .ok sc => if !heights then "pack-err" else if sc = native then "accept" else "run-reject"
+            | .ok sc => if sc = native then "accept" else "run-reject"
           let elems := ",".intercalate ((inventory dg s rounds).map fun (c, n) => s!"{c}={n}")
           s!"res pred={pred} trans={render (renderEvents d dg lmh native.events)} elems={elems}"
         match mode with
         | "uni" =>
-          if k = 1 then go (nativeUni s) (circuitUni s) (nativeUniRounds s) true else "bad-op"
-        | "batch" => go (nativeBatch s) (circuitBatch s) (nativeBatchRounds s) (inputHeightsOK s)
+          if k = 1 then go (nativeUni s) (circuitUni s) (nativeUniRounds s) else "bad-op"
+        | "batch" => go (nativeBatch s) (circuitBatch s) (nativeBatchRounds s)
         | _ => "bad-op"
       | none => "bad-op"
     | _ => "bad-op"
